@@ -24,7 +24,7 @@ var Leaves = []reflect.Type{
 // Statics are the hand-written struct types (embedding, tags, recursion).
 var Statics = []reflect.Type{
 	T[EmbedVal](), T[EmbedPtr](), T[EmbedUnexpVal](), T[EmbedUnexpPtr](), T[EmbedConflict](), T[EmbedAmbiguous](), T[EmbedTaggedWins](), T[EmbedDeep](),
-	T[EmbedMarshaler](), T[EmbedTextMarshalerPtr](), T[EmbedNonStruct](), T[EmbedPtrNonStruct](), T[EmbedIface](), T[EmbedTwoPtr](), T[EmbedTagDepths](), T[DupTagDirect](), T[DupTagEmbedded](), T[NonASCIIKeys](), T[AddrMapThenSlice](), T[AddrSliceThenMap](), T[AddrDeepValThenPtr](), T[AddrDeepSliceThenVal](), T[AddrDeepMapThenArr](), T[EmbedUnexpNonStructTagged](), T[MutRoot](), T[MutA](), T[RecEmbA](), T[RecEmbE](), T[InvTagEmbedded](), T[InvTagSame](), T[InvTagDom](), T[AmbT](), T[AmbU](), T[EmbedPtrOmit](), T[EmbedPtrOmitRefs](), T[EmbedPtrOmitRefs8](), T[Tags](), T[StringOpts](), T[CaseFields](), T[Recursive](), T[Deep](),
+	T[EmbedMarshaler](), T[EmbedTextMarshalerPtr](), T[EmbedNonStruct](), T[EmbedPtrNonStruct](), T[EmbedIface](), T[EmbedTwoPtr](), T[EmbedTagDepths](), T[DupTagDirect](), T[DupTagEmbedded](), T[NonASCIIKeys](), T[AddrMapThenSlice](), T[AddrSliceThenMap](), T[AddrDeepValThenPtr](), T[AddrDeepSliceThenVal](), T[AddrDeepMapThenArr](), T[EmbedUnexpNonStructTagged](), T[MutRoot](), T[MutA](), T[RecEmbA](), T[RecEmbE](), T[InvTagEmbedded](), T[InvTagSame](), T[InvTagDom](), T[AmbT](), T[AmbU](), T[EmbedPtrOmit](), T[EmbedPtrOmitRefs](), T[EmbedPtrOmitRefs8](), T[Tags](), T[StringOpts](), T[CaseFields](), T[CaseFieldsLong](), T[Recursive](), T[Deep](),
 }
 
 var mapKeys = []reflect.Type{T[string](), T[NamedString](), T[int](), T[int8](), T[uint64](), T[KeyT](), T[KeyPT](), T[bool](), T[float64](), T[VTInt](), T[VTString](), T[KeyMTOnly](), T[time.Duration](), T[VMInt](), T[PMInt](), reflect.PointerTo(T[KeyPT]()), reflect.PointerTo(T[KeyT]()), T[KeyNaN]()}
